@@ -272,7 +272,11 @@ def explore(ctx, pid, scenarios, per_scn, env, cases=None):
         ctx.count("sequential_reference_runs", len(seqs))
         if not any(s["complete"] for s in seqs):
             ctx.count("scenarios_without_complete_sequential_order")
-        for _ in range(per_scn):
+        # scenarios in which a register changes its simulating node while other operations wait for it need a particular
+        # interleaving (a few percent of the random schedules): they get four times as many schedules
+        heavy = any(w in scn["name"] for w in ("pulled", "pulling", "crossing directions", "both-remote merge"))
+        very = "whose register is being pulled" in scn["name"]     # a gate slipping between lock release and register move: ~2 % of schedules
+        for _ in range(per_scn * (12 if very else 4 if heavy else 1)):
             seed = ctx.rng.randrange(1 << 30)
             p_tick = ctx.rng.choice([0.0, 0.03, 0.1, 0.3, 0.6])
             res = conc.run_concurrent(env, scn, seed=seed, p_tick=p_tick, p_idle=ctx.rng.choice([0.0, 0.1, 0.3]))
